@@ -762,10 +762,10 @@ def run(ctx: vlib.Ctx):
     ]
     ctx.trusted += [
         "Fmt.v models: class table with nested / inherited(flattened) / self-referencing dataclasses (by name and typing.Self), "
-        "NamedTuple (list form), total TypedDict, Enum (str/int values, no aliases), Tuple[T,...] / Set / FrozenSet, "
+        "NamedTuple (list form), total TypedDict, Enum (str/int values, no aliases), Tuple[T,...] / Tuple[T1..Tn] / Set / FrozenSet, "
         "discriminated unions (Annotated Discriminator, str tags), Literal tags, Any positions, lists, str-keyed mappings, "
         "Optional, text-rendered leaves, the format dialects merged with a caller's dialect (both directions). Plain unions, "
-        "fixed-length tuples, non-str mapping keys, class-level discriminators / base-typed polymorphic fields, "
+        "non-str mapping keys, class-level discriminators / base-typed polymorphic fields, "
         "namedtuple_as_dict, orjson_options are covered by the oracle only",
         "the format libraries and the stdlib leaf codecs are oracles with assumed laws (hypotheses of the theorems)",
         "tools/kernels/k41_format_dialects.py (AST reader of the three dialect classes), tools/kernels/k40_codec_wrapper.py "
